@@ -413,6 +413,29 @@ def eval_mutations(row):
         if not unchanged and outs['spX'] is True:
             bad.append('changed-query-still-verifies')
         res.append((name, outs, bad))
+    # the same unchanged parameters in every order a receiving framework may present them in
+    keys = list(base)
+    for n, perm in enumerate(itertools.permutations(keys)):
+        if list(perm) == keys:
+            continue
+        d = {k: base[k] for k in perm}
+        try:
+            r = verify_redirect_signature(dict(d), ents['e2'].sec.sec_backend, world.cert_b64('spX'))
+            r = bool(r) if r is not None else None
+        except Exception as e:
+            r = 'EXC:%s' % type(e).__name__
+        res.append(('parameter-order-%s' % '-'.join(k[:4] for k in perm), {'spX': r}, [] if r is True else ['unchanged-signed-query-does-not-verify']))
+    # candidate certificates that are no certificates, checked by the very entity that signed (its own key must never
+    # stand in for the one it was asked to check against)
+    good = world.cert_b64('spX')
+    for label, junk in (('junk', 'bm90IGEgY2VydGlmaWNhdGU='), ('truncated', good[:len(good) // 2]), ('pem-armour', '-----BEGIN CERTIFICATE-----' + good),
+                        ('other-garbage', 'AAAA'), ('whitespace', '  ')):
+        try:
+            r = verify_redirect_signature(dict(base), ents['e1'].sec.sec_backend, junk)
+            r = bool(r) if r is not None else None
+        except Exception as e:
+            r = 'EXC:%s' % type(e).__name__
+        res.append(('candidate-certificate-%s' % label, {'signer-as-verifier': r}, ['verifies-under-other-certificate'] if r is True else []))
     return a, rs, res
 
 
@@ -448,6 +471,48 @@ def eval_keysize(task):
             if r is not want:
                 bad.append('library-verification-under-%s-certificate-returned-%s' % ('own' if want else 'another', r))
     return kn, a, sorted(set(bad))
+
+
+def eval_keyfile(task):
+    """An entity is built from a key file; the file is replaced on disk (a roll-over staged for the next restart)
+    before the entity signs for the first time: the URL must verify under the certificate the entity was built with."""
+    import shutil
+    from saml2_tophat import BINDING_HTTP_REDIRECT
+    how, a = task
+    d = os.path.join(TMP[0], 'kf-%s-%s-%d' % (how, a, os.getpid()))
+    os.makedirs(d, exist_ok=True)
+    kf = os.path.join(d, 'entity.key')
+    shutil.copy(world.key('spX'), kf)
+    cwd = os.getcwd()
+    bad = []
+    try:
+        if how == 'relative-path-then-chdir':
+            os.chdir(d)
+            top = {'key_file': 'entity.key'}
+        else:
+            top = {'key_file': kf}
+        e = world.make_sp(TMP[0], entity_id='urn:vp:kf', enc=(), top=top)
+        if how == 'replaced':
+            shutil.copy(world.key('idpA'), kf)
+        elif how == 'removed':
+            os.unlink(kf)
+        else:
+            d2 = os.path.join(d, 'other')
+            os.makedirs(d2, exist_ok=True)
+            shutil.copy(world.key('idpA'), os.path.join(d2, 'entity.key'))
+            os.chdir(d2)
+        try:
+            url = location(e.apply_binding(BINDING_HTTP_REDIRECT, MSG, DEST, 'rs', sign=True, sigalg=ALGS[a]))
+        except Exception as ex:
+            return how, a, ['signing-failed-after-key-file-changed:%s' % type(ex).__name__]
+        if not independent_verify(url, 'spX'):
+            bad.append('url-does-not-verify-under-requesters-certificate')
+        if independent_verify(url, 'idpA'):
+            bad.append('url-verifies-under-other-certificate')
+    finally:
+        os.chdir(cwd)
+        shutil.rmtree(d, ignore_errors=True)
+    return how, a, bad
 
 
 # ------------------------------------------------------------------- run
@@ -527,6 +592,10 @@ def run(ctx):
         n_ks += 1
         for y in bad:
             ctx.violation({'kind': 'keysize', 'why': y, 'key': kn, 'alg': a}, {})
+    for how, a, bad in ctx.pmap(eval_keyfile, [(h, a) for h in ('replaced', 'removed', 'relative-path-then-chdir') for a in list(ALGS)[:2]], chunksize=1):
+        n_ks += 1
+        for y in bad:
+            ctx.violation({'kind': 'keyfile', 'why': y, 'how': how, 'alg': a}, {})
     n_mut += n_ks
     total_sched = sum(sched_n.values())
     return {
@@ -538,7 +607,7 @@ def run(ctx):
                         {'schedule_scenarios': scen, 'schedules_per_scenario': sched_n, 'scheduling_points_per_execution': points}],
             'exhaustive': True, 'op_sequence_states': len(seen), 'op_sequence_depth': depth, 'op_states_by_depth': by_depth,
             'schedules': total_sched, 'preemption_bound': bound, 'preemption_bound_note': 'thorough: bound 2 for sign||sign(same alg) and verify||verify, bound 1 for the two control scenarios', 'query_mutations': n_mut,
-            'rule': '(a) BFS over all sequences (depth %d) of get_signer / sign-with-held-signer / apply_binding(REDIRECT, sign=True) / verify_redirect_signature by %d real entities with different keys, merged by (held signers and their object sharing, URLs produced); after every step every produced URL must verify (independent verifier over the raw query octets) under its requester\'s certificate and no other. (b) every thread schedule with <= %d preemptions of 5 two-thread scenarios (sign||sign same/different algorithm, verify||verify, sign||verify, construct||construct: two security contexts built concurrently, then each signs), scheduling points = every source line in the package + every bytecode inside %s. (c) complete single-parameter mutation table of a signed query for every algorithm and 6 RelayStates. (d) signing keys of 1024, 1025, 2047 and 3072 bits x every algorithm x request/response.' % (depth, len(names), bound, sorted(CRITICAL)),
+            'rule': '(a) BFS over all sequences (depth %d) of get_signer / sign-with-held-signer / apply_binding(REDIRECT, sign=True) / verify_redirect_signature by %d real entities with different keys, merged by (held signers and their object sharing, URLs produced); after every step every produced URL must verify (independent verifier over the raw query octets) under its requester\'s certificate and no other. (b) every thread schedule with <= %d preemptions of 5 two-thread scenarios (sign||sign same/different algorithm, verify||verify, sign||verify, construct||construct: two security contexts built concurrently, then each signs), scheduling points = every source line in the package + every bytecode inside %s. (c) complete single-parameter mutation table of a signed query for every algorithm and 6 RelayStates. (d) signing keys of 1024, 1025, 2047 and 3072 bits x every algorithm x request/response; the key file replaced / removed / shadowed by a relative path after construction; every order of the query parameters at verification; five non-certificates as candidate certificate with the signer itself as verifier.' % (depth, len(names), bound, sorted(CRITICAL)),
         },
         'assumptions': ['CPython GIL: a single bytecode is atomic; C-level code (cryptography, urlencode internals) is not interleaved',
                         'no free-running race detector exists for Python; opcode-level points inside the critical functions stand in for it'],
